@@ -53,9 +53,30 @@ class ExcFlow:
     def subclasses(self, cls: ClassInfo) -> list[ClassInfo]:
         return [c for m in self.f.modules.values() for c in m.classes.values() if cls in c.mro() and m.name != "gherkin.inout"]
 
+    def instantiated(self) -> set:
+        """Classes some code of the package constructs (``C(...)`` with C resolving to a repository class)."""
+        if not hasattr(self, "_inst"):
+            inst = set()
+            for fn in self.f.all_functions():
+                if fn.module.name == "gherkin.inout":
+                    continue
+                for n in ast.walk(fn.node):
+                    if isinstance(n, ast.Call) and isinstance(n.func, ast.Name):
+                        c = self.f.resolve_class(fn.module, n.func.id)
+                        if c is not None:
+                            inst.add(c)
+            self._inst = inst
+        return self._inst
+
     def methods_named(self, cls: ClassInfo, name: str) -> list[FuncInfo]:
         out = []
-        for c in self.subclasses(cls):
+        subs = self.subclasses(cls)
+        # a receiver is an instance of a class that is constructed somewhere: a base class nobody instantiates (a template with
+        # hooks its subclasses fill in) contributes no receiver of its own when constructed subclasses exist
+        live = [c for c in subs if c in self.instantiated()]
+        if live and cls not in live and any(c is not cls for c in live):
+            subs = live
+        for c in subs:
             m = c.find_method(name)
             if m is not None and m not in out:
                 out.append(m)
@@ -141,6 +162,26 @@ class ExcFlow:
                         if x not in r:
                             r.append(x)
                 return r
+        if isinstance(e, ast.Call) and isinstance(e.func, ast.Name) and e.func.id == "getattr" and len(e.args) >= 2:
+            # a method looked up by name: that method when the name is a constant, else any method the name may spell
+            # (those with the constant prefix of the name expression; every method when nothing about the name is known)
+            c = self.recv_class(fi, e.args[0], local_types)
+            if c is not None:
+                nm = e.args[1]
+                prefix = ""
+                exact = None
+                if isinstance(nm, ast.Constant) and isinstance(nm.value, str):
+                    exact = nm.value
+                elif isinstance(nm, ast.JoinedStr) and nm.values and isinstance(nm.values[0], ast.Constant):
+                    prefix = str(nm.values[0].value)
+                elif isinstance(nm, ast.BinOp) and isinstance(nm.op, ast.Add) and isinstance(nm.left, ast.Constant) and isinstance(nm.left.value, str):
+                    prefix = nm.left.value
+                out = []
+                for k in self.subclasses(c) + c.mro():
+                    for mn, mf in k.methods.items():
+                        if ((exact is not None and mn == exact) or (exact is None and mn.startswith(prefix) and not mn.startswith("__"))) and mf not in out:
+                            out.append(mf)
+                return out
         if isinstance(e, ast.IfExp):
             a, b = self.callable_targets(fi, e.body, local_types, bindings), self.callable_targets(fi, e.orelse, local_types, bindings)
             if a is not None or b is not None:
